@@ -16,6 +16,7 @@ import Sudachi.Model.PySession
 import Sudachi.Model.Sched
 import Sudachi.Model.Rewrite
 import Sudachi.Model.RewriteNumeric
+import Sudachi.Model.RewriteNumericSplit
 import Sudachi.Model.Subset
 import Sudachi.Model.SubsetRw
 import Sudachi.Model.Split
@@ -52,7 +53,8 @@ def answer (line : String) : String :=
     | "C16" => Sentence.handle rest
     | "C13" => Oov.handle op rest
     | "C07" => Normalize.handle op rest
-    | "C15" => if op = "pipe".toList then RewriteNumeric.handle rest else Numeric.handle op rest
+    | "C15" => if op = "pipe".toList then RewriteNumeric.handle rest
+               else if op = "modes".toList then RewriteNumericSplit.handle rest else Numeric.handle op rest
     | "C19" => if op = "pyglue".toList then PyGlue.handle rest else if op = "pysess".toList then PySession.handle rest else Cli.handle op rest
     | "C18" => Sched.handleOp op rest
     | "C14" => Rewrite.handle rest
